@@ -19,10 +19,13 @@ func newPingTransaction(client *Client) *pingTransaction {
 			RetryTransaction: transactions.NewRetryTransaction(
 				client.groupCtx, client.cfg.RetryDelay, client.cfg.RetryCount,
 				func(lastPkt interface{}) error {
-					// A sleeping client sends nothing but the wake-up PINGREQ.
+					// A sleeping client sends nothing but the wake-up PINGREQ,
+					// and nothing follows the DISCONNECT of a client which
+					// disconnects itself.
 					client.pingLock.Lock()
 					defer client.pingLock.Unlock()
-					if client.state.Get() == util.StateAsleep {
+					switch client.state.Get() {
+					case util.StateAsleep, util.StateDisconnected:
 						return nil
 					}
 					tLog.Debug("Resend.")
